@@ -131,7 +131,11 @@ func getEnv18() (*c18Env, error) {
 	return env18, env18Err
 }
 
-var c18Others = []string{"1.1 other", "1.0 fred", "1.1 p.example.net:8080", "1.1 a (comment)", "HTTP/1.1 GWA", "1.1 forwarder-0000000000", "1.1 forwarder", "2.0 h2hop", "@B"}
+// other hops' elements, over the whole Via grammar of RFC 7230: optional protocol name, received-by as host[:port] or
+// pseudonym, optional comment - with nested comments, commas and quoted-pairs (an escaped parenthesis leaves the
+// parentheses of a comment unbalanced for anyone who counts them without honouring the escape)
+var c18Others = []string{"1.1 other", "1.0 fred", "1.1 p.example.net:8080", "1.1 a (comment)", "HTTP/1.1 GWA", "1.1 forwarder-0000000000", "1.1 forwarder", "2.0 h2hop", "@B",
+	"1.1 edge (Acme \\(edge gateway)", "1.1 gw (build 12\\) rc)", "1.1 c (a, b)", "1.1 n (nested (deep (er)) comment)", "1.1 q (say \\\"hi\\\")", "1.1 e ()", "1.1 bs (back\\\\slash)"}
 
 func genC18(t *rapid.T) C18Case {
 	c := C18Case{Mode: rapid.SampledFrom([]string{"chain", "chain", "chain", "chain-mitm", "loop-aa", "loop-aba"}).Draw(t, "mode")}
@@ -291,7 +295,7 @@ func runC18(c C18Case) (fails []vstat.Failure) {
 			fails = append(fails, vstat.Failf(key("others-refused"), "Via lines %q contain only other hops' elements (own is %q) but the proxy answered %d %q", lines, own, m.Status, m.Body))
 			break
 		}
-		got := splitList(rec.Get("Via"))
+		got := splitViaList(rec.Get("Via"))
 		if len(got) != len(elems)+1 {
 			fails = append(fails, vstat.Failf(key(lineKey+"chain"), "Via: sent elements %q, origin got %q (want the same plus one)", elems, got))
 			break
@@ -346,3 +350,33 @@ func classifyC18(c C18Case) (bool, string, []string) {
 var propC18 = vstat.Prop[C18Case]{Name: "TestC18Via", Gen: genC18, Run: runC18, Classify: classifyC18}
 
 func TestC18Via(t *testing.T) { propC18.Check(t, st) }
+
+
+// splitViaList splits Via field values into elements at the commas that are not inside a comment; comments nest
+// and may contain quoted-pairs (RFC 7230 section 3.2.6).
+func splitViaList(vals []string) []string {
+	var out []string
+	for _, v := range vals {
+		depth, start := 0, 0
+		flush := func(end int) {
+			if p := strings.TrimSpace(v[start:end]); p != "" {
+				out = append(out, p)
+			}
+		}
+		for i := 0; i < len(v); i++ {
+			switch {
+			case v[i] == '\\' && depth > 0:
+				i++ // quoted-pair
+			case v[i] == '(':
+				depth++
+			case v[i] == ')' && depth > 0:
+				depth--
+			case v[i] == ',' && depth == 0:
+				flush(i)
+				start = i + 1
+			}
+		}
+		flush(len(v))
+	}
+	return out
+}
